@@ -15,69 +15,124 @@ namespace Ari
 /-- **C09 (error names the method).** -/
 theorem c09_error_names_method (m : String) (toks : List String) (e : ParseError)
     (h : decodeRequest m toks = some (.error e)) : e.method = m := by
-  sorry
+  unfold decodeRequest at h
+  cases hs : schemaOf m with
+  | none => simp [hs] at h
+  | some σ =>
+    simp only [hs, Option.map_some, Option.some.injEq] at h
+    split at h
+    · cases h
+    · cases h; rfl
 
 /-- **C09 (truncation inside the fixed fields).** Any token list shorter than the fixed part of the
     layout is rejected. -/
 theorem c09_reject_truncated (σ : Schema) (toks : List String)
     (h : toks.length < 2 * σ.fixed.length) : decodeWith σ toks = .error () := by
-  sorry
+  apply decodeWith_error_of_fixed
+  apply decodeFixed_short
+  · intro hnil; simp [hnil] at h
+  · omega
 
 /-- **C09 (wrong type marker).** If the marker of fixed field `i` is not the layout's, the request is
     rejected, whatever the other tokens are. -/
 theorem c09_reject_marker (σ : Schema) (toks : List String) (i : Nat) (ty : Ty)
     (hi : σ.fixed[i]? = some ty) (h : toks[2 * i]? ≠ some (String.singleton ty.marker)) :
     decodeWith σ toks = .error () := by
-  sorry
+  apply decodeWith_error_of_fixed
+  apply decodeFixed_error _ _ 0 i ty hi
+  apply read_error_of_marker
+  simpa using h
 
 /-- **C09 (non-integer in an integer slot).** -/
 theorem c09_reject_int (σ : Schema) (toks : List String) (i : Nat) (t : String)
     (hi : σ.fixed[i]? = some .I) (ht : toks[2 * i + 1]? = some t) (h : pyInt? t = none) :
     decodeWith σ toks = .error () := by
-  sorry
+  apply decodeWith_error_of_fixed
+  apply decodeFixed_error _ _ 0 i .I hi
+  exact read_I_error _ _ t (by simpa using ht) h
 
 /-- **C09 (unknown mode code).** (DESIGN I-2: a mode token is unknown iff it is not `#`/`$` and its
     first character is not one of `R M D C`.) -/
 theorem c09_reject_mode (σ : Schema) (toks : List String) (i : Nat) (t : String)
     (hi : σ.fixed[i]? = some .M) (ht : toks[2 * i + 1]? = some t) (h : decodeModes t = .error ()) :
     decodeWith σ toks = .error () := by
-  sorry
+  apply decodeWith_error_of_fixed
+  apply decodeFixed_error _ _ 0 i .M hi
+  exact read_M_error _ _ t (by simpa using ht) h
 
 /-- **C09 (unknown platform code).** -/
 theorem c09_reject_platform (σ : Schema) (toks : List String) (i : Nat) (t : String)
     (hi : σ.fixed[i]? = some .P) (ht : toks[2 * i + 1]? = some t) (h : decodePlat t = .error ()) :
     decodeWith σ toks = .error () := by
-  sorry
+  apply decodeWith_error_of_fixed
+  apply decodeFixed_error _ _ 0 i .P hi
+  exact read_P_error _ _ t (by simpa using ht) h
 
 /-- which mode / platform tokens are unknown, explicitly. -/
 theorem c09_unknown_mode_iff (t : String) :
     decodeModes t = .error () ↔
       (t ≠ "#" ∧ t ≠ "$" ∧ ∀ c, t.toList.head? = some c → c ≠ 'R' ∧ c ≠ 'M' ∧ c ≠ 'D' ∧ c ≠ 'C') := by
-  sorry
+  unfold decodeModes
+  by_cases h : t = "#" ∨ t = "$"
+  · rw [if_pos h]
+    constructor
+    · intro hh; cases hh
+    · rintro ⟨h1, h2, _⟩; rcases h with h | h <;> contradiction
+  · rw [if_neg h]
+    have h1 : t ≠ "#" := fun e => h (Or.inl e)
+    have h2 : t ≠ "$" := fun e => h (Or.inr e)
+    generalize t.toList = l
+    split
+    · simp
+    · simp
+    · simp
+    · simp
+    · rename_i n1 n2 n3 n4
+      simp only [true_iff]
+      refine ⟨h1, h2, ?_⟩
+      intro c hc
+      cases l with
+      | nil => simp at hc
+      | cons a as =>
+        simp only [List.head?_cons, Option.some.injEq] at hc
+        subst hc
+        exact ⟨fun e => n1 as (by rw [e]), fun e => n2 as (by rw [e]),
+          fun e => n3 as (by rw [e]), fun e => n4 as (by rw [e])⟩
 
 theorem c09_unknown_platform_iff (t : String) :
     decodePlat t = .error () ↔ (t ≠ "#" ∧ t ≠ "$" ∧ t ≠ "A" ∧ t ≠ "G") := by
-  sorry
+  unfold decodePlat
+  split
+  · simp_all
+  · split
+    · simp_all
+    · split
+      · simp_all
+      · split <;> simp_all
 
 /-- **C09 (tails).** A list tail cut after a marker, a map tail with an odd number of tokens, and a
     table list whose length is not a multiple of 14 are rejected (DESIGN I-3 lists what is tolerated:
     only a dangling `S|k` pair at the end of a map). -/
 theorem c09_reject_seq_odd (toks : List String) (off : Nat)
     (h : (toks.length - off) % 2 = 1) : readSeq toks off = .error () := by
-  sorry
+  unfold readSeq
+  exact readSeqL_odd _ (by rw [List.length_drop]; exact h)
 
 theorem c09_reject_map_odd (toks : List String) (off : Nat)
     (h : (toks.length - off) % 2 = 1) : readMap toks off = .error () := by
-  sorry
+  unfold readMap
+  simp only [List.length_drop]
+  rw [if_pos (by omega)]
 
 theorem c09_reject_tables_partial (toks : List String) (h : toks.length % 14 ≠ 0) :
     decodeTables toks.length toks = .error () := by
-  sorry
+  exact decodeTables_partial _ _ h
 
 /-- **C09 (a rejected request never reaches the adapter and is never answered).** -/
 theorem c09_no_call_no_reply (m : String) (toks : List String) (script : List Outcome) (e : ParseError)
     (h : decodeRequest m toks = some (.error e)) : metaHandle m toks script = some (.error e) := by
-  sorry
+  unfold metaHandle
+  rw [h]; rfl
 
 -- non-vacuity (tests, labelled as such): concrete malformed requests of the repository's tests
 example : decodeRequest "GIS" ["S"] = some (.error ⟨"GIS"⟩) := by decide +kernel
